@@ -16,9 +16,9 @@ import (
 
 func init() {
 	ev.Register(&ev.Check{
-		ID:    "C03",
-		Level: "exploration",
-		Rule: "families, each enumerated completely: (1) ALL ordered pairs of user types from a pool of 10 bodies (integer, ranged integer, string, min-length string, two objects, two arrays, boolean, float) + a derived third type (alias / or) x 12 root constructs (@A, @A|@B, via alias, same type via two paths, {type:\"@A\"}, or-lists with names / {type:\"@A\"} / inline rule-sets / JSON kinds) x nullable x 6 positions (root, property, array element, arrays with minItems / maxItems) x ALL documents <= 3 nodes over 6 scalars and keys k,l,p (arrays of <= 3 elements for array positions); (2) allOf: 9 parent/child configurations (depth <= 2, lists, optional keys) x 4 additionalProperties settings x ALL 1024 objects over 5 keys x 3 values; (3) additionalProperties: 12 settings x 60 objects; (4) key shortcuts: 5 key types x required/optional/optional-by-default x 2 layouts x ALL objects with <= 3 members over 6 keys. Oracles: three-valued reference set semantics; differentials verdict(@A|@B) == verdict(@A) or verdict(@B). Non-trivial = distinct (schema, environment, document) with decided reference.",
+		ID:             "C03",
+		Level:          "exploration",
+		Rule:           "families, each enumerated completely: (1) ALL ordered pairs of user types from a pool of 10 bodies (integer, ranged integer, string, min-length string, two objects, two arrays, boolean, float) + a derived third type (alias / or) x 12 root constructs (@A, @A|@B, via alias, same type via two paths, {type:\"@A\"}, or-lists with names / {type:\"@A\"} / inline rule-sets / JSON kinds) x nullable x 6 positions (root, property, array element, arrays with minItems / maxItems) x ALL documents <= 3 nodes over 6 scalars and keys k,l,p (arrays of <= 3 elements for array positions); (2) allOf: 9 parent/child configurations (depth <= 2, lists, optional keys) x 4 additionalProperties settings x ALL 1024 objects over 5 keys x 3 values; (3) additionalProperties: 12 settings x 60 objects; (4) key shortcuts: 5 key types x required/optional/optional-by-default x 2 layouts x ALL objects with <= 3 members over 6 keys. Oracles: three-valued reference set semantics; differentials verdict(@A|@B) == verdict(@A) or verdict(@B). Non-trivial = distinct (schema, environment, document) with decided reference.",
 		Run:            run,
 		Replay:         replay,
 		QuickBudget:    80 * time.Second,
@@ -189,7 +189,7 @@ func (e *enumCtx) Mine() bool {
 	}
 	return e.c.Mine()
 }
-func (e *enumCtx) Expired() bool { return e.c != nil && e.c.Expired() }
+func (e *enumCtx) Expired() bool  { return e.c != nil && e.c.Expired() }
 func (e *enumCtx) Thorough() bool { return e.thorough }
 func (e *enumCtx) Bound(k string, v any) {
 	if e.c != nil {
